@@ -406,6 +406,12 @@ type Work struct {
 	CloseAfter int      `json:"close_after"`       // number of operations started before Close (they are all in flight when Close runs if Hold)
 	Hold       bool     `json:"hold"`              // the HTTP client holds every response until Close has begun
 	Fail500    bool     `json:"fail500,omitempty"` // finally one more call is answered by the HTTP endpoint with status 500
+	// TransportFailAt: the k-th HTTP round trip (1-based) fails with a transport
+	// error instead of yielding a response (hold mode: when it is released).
+	TransportFailAt int `json:"transport_fail_at,omitempty"`
+	// Raw: the channel is used without a Client: CloseAfter requests are sent,
+	// nothing is received, and Close has to deal with all of them.
+	Raw bool `json:"raw,omitempty"`
 }
 
 type spyBody struct {
@@ -429,12 +435,20 @@ type fakeHTTP struct {
 	hold    bool
 	fail500 bool
 	inDo    int
+	failAt  int
 }
 
 func (f *fakeHTTP) Do(req *http.Request) (*http.Response, error) {
 	f.mu.Lock()
 	f.inDo++
+	k := f.inDo
 	f.mu.Unlock()
+	if f.failAt > 0 && k == f.failAt {
+		if f.hold {
+			<-f.release
+		}
+		return nil, errors.New("transport failure: connection reset")
+	}
 	rec := httptest.NewRecorder()
 	if f.fail500 {
 		rec.WriteHeader(500)
@@ -518,16 +532,30 @@ func runWork(t *testing.T, w Work) (v engine.Verdict) {
 			srv.Wait()
 			// the same workload over jhttp.Channel against a Bridge
 			b := jhttp.NewBridge(workMux(), nil)
-			fh := &fakeHTTP{b: b, release: make(chan struct{}), hold: w.Hold}
+			fh := &fakeHTTP{b: b, release: make(chan struct{}), hold: w.Hold, failAt: w.TransportFailAt}
 			hch := jhttp.NewChannel("http://bridge/", &jhttp.ChannelOptions{Client: fh})
-			cli := jrpc2.NewClient(hch, nil)
+			var cli *jrpc2.Client
+			if !w.Raw {
+				cli = jrpc2.NewClient(hch, nil)
+			}
 			n := w.CloseAfter
 			if n > len(w.Ops) {
 				n = len(w.Ops)
 			}
 			results := make([]string, n)
 			var wg sync.WaitGroup
-			if w.Hold {
+			if w.Raw {
+				for i := 0; i < n; i++ {
+					hch.Send([]byte(fmt.Sprintf(`{"jsonrpc":"2.0","id":%d,"method":"add","params":[%d]}`, i+1, i)))
+				}
+				synctest.Wait()
+				closed := make(chan struct{})
+				go func() { hch.Close(); close(closed) }()
+				synctest.Wait()
+				close(fh.release)
+				<-closed
+				results = nil
+			} else if w.Hold {
 				for i := 0; i < n; i++ {
 					wg.Add(1)
 					go func(i int) {
@@ -575,7 +603,7 @@ func runWork(t *testing.T, w Work) (v engine.Verdict) {
 	if unclosed > 0 {
 		return engine.Failf("C19/channel/body-not-closed", "%d of %d HTTP response bodies were never closed (workload %+v)", unclosed, total, w)
 	}
-	if !w.Hold {
+	if !w.Hold && !w.Raw && w.TransportFailAt == 0 {
 		if len(overHTTP) > len(overDirect) || (len(overHTTP) > 0 && strings.HasPrefix(overHTTP[len(overHTTP)-1], "call over a failing")) {
 			return engine.Failf("C19/channel/http-failure-ignored", "a call answered with HTTP status 500 reported success")
 		}
@@ -585,7 +613,11 @@ func runWork(t *testing.T, w Work) (v engine.Verdict) {
 			}
 		}
 	}
-	return engine.Verdict{NonTrivial: (w.Hold && w.CloseAfter > 0 && len(w.Ops) > 0) || w.Fail500, Labels: []string{fmt.Sprintf("hold:%v", w.Hold)}}
+	labels := []string{fmt.Sprintf("hold:%v", w.Hold)}
+	if w.TransportFailAt > 0 {
+		labels = append(labels, "transport-failure")
+	}
+	return engine.Verdict{NonTrivial: (w.Hold && w.CloseAfter > 0 && len(w.Ops) > 0) || w.Fail500 || w.TransportFailAt > 0, Labels: labels}
 }
 
 func genWork(t *testing.T) func(*rapid.T) Work {
@@ -597,6 +629,13 @@ func genWork(t *testing.T) func(*rapid.T) Work {
 		}
 		w.CloseAfter = rapid.IntRange(0, n).Draw(t, "closeafter")
 		w.Fail500 = !w.Hold && rapid.IntRange(0, 2).Draw(t, "fail500") == 0
+		if w.Hold && rapid.IntRange(0, 3).Draw(t, "raw") == 0 {
+			w.Raw = true
+		}
+		if n > 0 && rapid.IntRange(0, 3).Draw(t, "transportfail") == 0 {
+			w.TransportFailAt = rapid.IntRange(1, n).Draw(t, "failat")
+			w.Fail500 = false
+		}
 		return w
 	}
 }
